@@ -8,8 +8,9 @@ HASH64 = lambda rng: "%064x" % rng.getrandbits(256)
 def item_of(tokens, i, rng, src):
     """one assembly item from plain tokens starting at i; returns (item, next i)"""
     t = tokens[i]
-    b = rng.randrange(0, 5000)
-    base = {"begin": b, "end": b + rng.randrange(1, 300), "source": src}
+    b = rng.choice([0, 0, -1]) if rng.random() < 0.15 else rng.randrange(0, 5000)
+    base = {"begin": b, "end": b + rng.choice([0, 1, rng.randrange(1, 300)]) if b >= 0 else rng.choice([-1, 0]),
+            "source": src if rng.random() < 0.9 else rng.choice([-1, 0, 1])}
     if re.fullmatch(r"PUSH\d+", t):
         v = int(tokens[i + 1], 16)
         return dict(base, name="PUSH", value="%X" % v if rng.random() < 0.5 else "%x" % v), i + 2
@@ -46,13 +47,19 @@ def items_of_block(text, rng, src=0):
     return out
 
 
-def code_section(rng, nblocks, tagbase, profile_blocks):
+def code_section(rng, nblocks, tagbase, profile_blocks, dup_prob=0.25):
     items = []
+    used = []
     for k in range(nblocks):
-        b = profile_blocks.pop() if profile_blocks else "PUSH1 0x0 DUP1 ADD"
+        if used and rng.random() < dup_prob:
+            b = rng.choice(used)          # solc output is full of repeated stubs: the same block text under another tag
+        else:
+            b = profile_blocks.pop() if profile_blocks else "PUSH1 0x0 DUP1 ADD"
+        used.append(b)
         if k > 0 or rng.random() < 0.5:
-            items += [{"begin": 1, "end": 2, "name": "tag", "source": 0, "value": str(tagbase + k)},
-                      {"begin": 1, "end": 2, "name": "JUMPDEST", "source": 0}]
+            b0 = rng.choice([0, 1, 17])
+            items += [{"begin": b0, "end": b0 + rng.choice([0, 2]), "name": "tag", "source": 0, "value": str(tagbase + k)},
+                      {"begin": b0, "end": b0 + rng.choice([0, 2]), "name": "JUMPDEST", "source": 0}]
         items += items_of_block(b, rng)
         if not re.search(r"(JUMP|JUMPI|STOP|RETURN|REVERT|INVALID)$", b):
             items += items_of_block(rng.choice(["JUMP", "STOP", "PUSH [tag] %x JUMPI" % (tagbase + k + 1), "PUSH1 0x0 DUP1 REVERT"]), rng)
